@@ -581,6 +581,52 @@ Section Window.
     destruct (win_exec ls (init c) s (inv_init c Hc) win_init H) as [_ [_ Ww]].
     pose proof (Ww t1 t2 Ht). pose proof (tk_window c t1 t2 Hr ltac:(lia)). lia.
   Qed.
+
+  (* windows that begin before Limiter::new: nothing is logged before [start] *)
+  Definition times_ge (s : sys) : Prop := forall i u p, In (i, u, p) (log s) -> start c <= u.
+
+  Lemma tg_exec : forall ls s s', inv c s -> times_ge s -> exec c s ls = Ok s' -> times_ge s'.
+  Proof.
+    induction ls as [|l ls IH]; intros s s' I T H; cbn [exec] in H.
+    - inversion H. subst. exact T.
+    - destruct (step c s l) as [s1|e|p] eqn:Es; [|eapply IH; eassumption|discriminate].
+      eapply IH; [eapply step_inv; eassumption| |exact H].
+      destruct (step_log s l s1 I Es) as [(Hl & _)|(id & q & Hl & _)]; unfold times_ge; rewrite Hl; [exact T|].
+      intros i u r [Hin|Hin]; [|apply (T i u r Hin)]. inversion Hin. subst. destruct I. lia.
+  Qed.
+
+  Lemma sum_window_clip : forall g t0 t1 t2, (forall i u p, In (i, u, p) g -> t0 <= u) -> t1 <= t0 ->
+    sum_window g t1 t2 = sum_window g t0 t2.
+  Proof.
+    induction g as [|[[i u] p] g IH]; intros t0 t1 t2 H Ht; cbn [sum_window]; [reflexivity|].
+    pose proof (H i u p (or_introl eq_refl)) as Hu.
+    rewrite (IH t0 t1 t2); [|intros j v q Hin; apply (H j v q); right; exact Hin|exact Ht].
+    replace (t1 <=? u) with true by (symmetry; apply Z.leb_le; lia).
+    replace (t0 <=? u) with true by (symmetry; apply Z.leb_le; lia). reflexivity.
+  Qed.
+
+  Lemma sum_window_empty : forall g t1 t2, (forall i u p, In (i, u, p) g -> t2 < u) -> sum_window g t1 t2 = 0.
+  Proof.
+    induction g as [|[[i u] p] g IH]; intros t1 t2 H; cbn [sum_window]; [reflexivity|].
+    pose proof (H i u p (or_introl eq_refl)) as Hu.
+    rewrite IH; [|intros j v q Hin; apply (H j v q); right; exact Hin].
+    replace (u <=? t2) with false by (symmetry; apply Z.leb_gt; lia). rewrite andb_false_r. reflexivity.
+  Qed.
+
+  Lemma window_generic_all : forall ls s t1 t2, exec c (init c) ls = Ok s -> t1 <= t2 ->
+    sum_window (log s) t1 t2 <= burst c + (t2 - t1) / refresh c + 1.
+  Proof.
+    intros ls s t1 t2 H Ht. destruct Hc as [Hb Hr].
+    destruct (Z_le_gt_dec (start c) t1) as [Hs|Hs]; [apply (window_generic ls); [exact H|lia]|].
+    assert (T : times_ge s).
+    { apply (tg_exec ls (init c) s (inv_init c Hc)); [|exact H]. unfold times_ge. rewrite log_init. intros i u p []. }
+    destruct (Z_le_gt_dec (start c) t2) as [H2|H2].
+    - rewrite (sum_window_clip (log s) (start c) t1 t2 T ltac:(lia)).
+      pose proof (window_generic ls s (start c) t2 H ltac:(lia)).
+      pose proof (Z.div_le_mono (t2 - start c) (t2 - t1) (refresh c) Hr ltac:(lia)). lia.
+    - rewrite sum_window_empty; [|intros i u p Hin; pose proof (T i u p Hin); lia].
+      pose proof (Z.div_pos (t2 - t1) (refresh c) ltac:(lia) Hr). lia.
+  Qed.
 End Window.
 
 Lemma avail_range : forall c s, cfg_ok c -> inv c s -> rs (st s) <= avail c s <= burst c.
@@ -597,11 +643,11 @@ Qed.
 
 (* permits granted in any window *)
 Theorem window_bound : forall c ls s t1 t2, cfg_ok c -> exec c (init c) ls = Ok s ->
-  start c <= t1 <= t2 ->
+  t1 <= t2 ->
   sum_window (grants s) t1 t2 <= burst c + (t2 - t1) / refresh c + 1.
 Proof.
   intros c ls s t1 t2 Hc H Ht.
-  apply (window_generic c Hc grants (fun s => avail c s - rs (st s))) with (ls := ls); try assumption.
+  apply (window_generic_all c Hc grants (fun s => avail c s - rs (st s))) with (ls := ls); try assumption.
   - intros x I. pose proof (avail_range c x Hc I). destruct I. lia.
   - reflexivity.
   - intros x l x' I Hs. destruct (step_effect c x l x' Hc I Hs) as [E|[[_ E]|[id [_ E]]]].
@@ -615,11 +661,11 @@ Qed.
 
 (* permits consumed (dropped) in any window *)
 Theorem consume_window_bound : forall c ls s t1 t2, cfg_ok c -> exec c (init c) ls = Ok s ->
-  start c <= t1 <= t2 ->
+  t1 <= t2 ->
   sum_window (drops s) t1 t2 <= burst c + (t2 - t1) / refresh c + 1.
 Proof.
   intros c ls s t1 t2 Hc H Ht.
-  apply (window_generic c Hc drops (fun s => avail c s)) with (ls := ls); try assumption.
+  apply (window_generic_all c Hc drops (fun s => avail c s)) with (ls := ls); try assumption.
   - intros x I. pose proof (avail_range c x Hc I). destruct I. lia.
   - reflexivity.
   - intros x l x' I Hs. destruct (step_effect c x l x' Hc I Hs) as [E|[[_ E]|[id [_ E]]]].
@@ -1016,7 +1062,7 @@ Qed.
 
 (* Every script is a run; hence all the theorems above hold for scripts. *)
 Theorem script_window_bound : forall c os s t1 t2, cfg_ok c -> run_ops c (init c) os = Ok s ->
-  start c <= t1 <= t2 ->
+  t1 <= t2 ->
   sum_window (grants s) t1 t2 <= burst c + (t2 - t1) / refresh c + 1 /\
   sum_window (drops s) t1 t2 <= burst c + (t2 - t1) / refresh c + 1.
 Proof.
@@ -1234,7 +1280,7 @@ Qed.
    number [n] of reusable streams (= min(local, peer) INFLIGHT by C14 open_streams_bounded),
    whatever the remote side and the application do (any label sequence). *)
 Theorem rpc_rate_bound : forall c n ls s t1 t2, cfg_ok c -> rexec c (rinit c n) ls = Ok s ->
-  start c <= t1 <= t2 ->
+  t1 <= t2 ->
   count_window (opens s) t1 t2 <= burst c + (t2 - t1) / refresh c + 1 /\ (n_open s <= n)%nat.
 Proof.
   intros c n ls s t1 t2 Hc H Ht.
